@@ -32,18 +32,29 @@ def _pos(n):
     return (n.lineno, n.col_offset)
 
 
-def _reads_empty_as_dict(fn):
-    """`json.loads(data) if data else {}` (IfExp with an empty dict) vs. a plain json.load(f)"""
+def _reads_empty_as_dict(fn, var):
+    """`json.loads(data) if data else {}` (IfExp with an empty dict) vs. a plain json.load(<var>) of the repo.json file"""
     tolerant = any(isinstance(n, ast.IfExp) and isinstance(n.orelse, ast.Dict) and not n.orelse.keys
                    and any(_callee(c) == "loads" for c in _calls(n.body)) for n in ast.walk(fn))
     plain = any(_callee(c) == "load" and isinstance(c.func, ast.Attribute) and isinstance(c.func.value, ast.Name)
-                and c.func.value.id == "json" for c in _calls(fn))
+                and c.func.value.id == "json" and c.args and isinstance(c.args[0], ast.Name) and c.args[0].id == var
+                for c in _calls(fn))
     if tolerant and not plain:
         return True
     if plain and not tolerant:
         return False
-    raise ExtractError("cannot tell how %s reads repo.json (json.load and the tolerant form %s)" %
-                       (fn.name, "both present" if plain else "both missing"))
+    raise ExtractError("cannot tell how %s reads repo.json (json.load(%s) and the tolerant form %s)" %
+                       (fn.name, var, "both present" if plain else "both missing"))
+
+
+def _repo_file_var(fn):
+    """name bound by `with OpenLocked(<...repo.json...>, ...) as NAME`"""
+    for n in ast.walk(fn):
+        if isinstance(n, ast.With):
+            for it in n.items:
+                if "repo.json" in constants(it.context_expr, str) and isinstance(it.optional_vars, ast.Name):
+                    return it.optional_vars.id
+    raise ExtractError("%s: no `with OpenLocked(... repo.json ...) as <name>`" % fn.name)
 
 
 def extract(repo):
@@ -77,7 +88,9 @@ def extract(repo):
     # ---- fix 3
     add = find(t, "LocalShare", "__addPackage")
     upd = find(add, "update")
-    e_upd, e_gc = _reads_empty_as_dict(upd), _reads_empty_as_dict(gc)
+    if not upd.args.args:
+        raise ExtractError("__addPackage.update has no file parameter")
+    e_upd, e_gc = _reads_empty_as_dict(upd, upd.args.args[0].arg), _reads_empty_as_dict(gc, _repo_file_var(gc))
     creates_x = any(_callee(c) == "OpenLocked" and len(c.args) >= 2 and isinstance(c.args[1], ast.Constant)
                     and c.args[1].value == "x" for c in _calls(add))
     creates_plain = any(_callee(c) == "open" and len(c.args) >= 2 and isinstance(c.args[1], ast.Constant)
